@@ -51,6 +51,7 @@ _DELAYS = {}
 @job('group_2d', props=['C11', 'C14'], function='bycycle.group.features.compute_features_2d')
 class Group2d:
     chunk = 1
+    case_timeout = 150
 
     def bound(self, tier):
         return ('2-D arrays with 1..%d pairwise different rows (corpus signals, n=800), shared option set or per-row list, '
@@ -123,6 +124,7 @@ class Group2d:
 @job('group_3d', props=['C12', 'C14'], function='bycycle.group.features.compute_features_3d')
 class Group3d:
     chunk = 1
+    case_timeout = 150
 
     def bound(self, tier):
         return ('3-D arrays of shape (n0, n1, 800) for all n0, n1 in 1..%d with pairwise different signals; axis (0,1), 0, 1; '
@@ -215,6 +217,7 @@ class Group3d:
 @job('group_epoched', props=['C13'], function='bycycle.group.features.compute_features_2d')
 class GroupEpoched:
     chunk = 1
+    case_timeout = 150
 
     def bound(self, tier):
         return ('2-D arrays (1..%d epochs of 400..800 samples, corpus signals) with axis=None: single option set vs flattened '
@@ -275,6 +278,7 @@ class GroupEpoched:
 @job('objects', props=['C14'], function='bycycle.objs.fit.Bycycle')
 class Objects:
     chunk = 1
+    case_timeout = 150
 
     def bound(self, tier):
         return ('seeded operation sequences (length %d) on one Bycycle object: fit on corpus signals, recompute_edges(r), '
